@@ -10,7 +10,7 @@ from harness.hyp import job_seed, run_property, scaled
 
 PROP = "C05"
 EPS = 2.0 ** -52
-KAPPA_MAX = 1e8
+KAPPA_MAX = 1e12
 RULE = ("Hypothesis: rational means, covariances Sigma = B B^T + diag(d) with small dyadic B (p<=7, rank 1..p) and d>0 "
         "(positive definite by construction) or d=0 outside the conditioning block (singular Sigma, well-conditioned X "
         "block), scaled by 4^s for s in [-20,20]; disjoint index lists Y, X in a drawn ORDER, presented as int / list / "
@@ -56,8 +56,20 @@ def build(case):
     s = Fraction(4) ** case.get("scale_exp", 0)
     cov = X.add(X.mm(B, X.T(B)), X.diag(d))
     cov = [[c * s for c in row] for row in cov]
+    cs = case.get("cscale")
+    if cs:                                   # per-coordinate dyadic units: Sigma' = D Sigma D, exact in binary floating point
+        u = [Fraction(2) ** e for e in cs]
+        cov = [[cov[i][j] * u[i] * u[j] for j in range(len(cov))] for i in range(len(cov))]
     mean = [fr(x) for x in case["mean"]]
     return mean, cov
+
+
+def float_cov(case, cov):
+    """The covariance as handed to the library: float64, or int64 when the case asks for it and every entry is an integer."""
+    p = len(cov)
+    if case.get("int_cov") and all(c.denominator == 1 and abs(c) < 2 ** 53 for row in cov for c in row):
+        return np.array([[int(c) for c in row] for row in cov], dtype=np.int64).reshape(p, p)
+    return np.array(X.to_float(cov)).reshape(p, p)
 
 
 def exact_conditional(mean, cov, Y, Xi, x):
@@ -119,7 +131,7 @@ def check(case):
     mean, cov = build(case)
     p = len(cov)
     fmean = np.array(X.vto_float(mean))
-    fcov = np.array(X.to_float(cov)).reshape(p, p)
+    fcov = float_cov(case, cov)
     ctx = "mean=%s cov=%s Y=%s X=%s x=%s" % (fmean.tolist(), fcov.tolist(), case.get("Y"), case.get("X"), case.get("x"))
     if sub == "errors":
         return _check_errors(sempler, case, fmean, fcov, ctx)
@@ -131,6 +143,10 @@ def check(case):
         lab.append("Y_unsorted")
     if len(Xi) >= 2 and Xi != sorted(Xi):
         lab.append("X_unsorted")
+    if fcov.dtype != float:
+        lab.append("int_cov")
+    if case.get("cscale") and (max(case["cscale"]) - min(case["cscale"])) >= 10:
+        lab.append("mixed_units")
     lab.append("Ypres_" + case.get("Ypres", "list"))
     lab.append("Xpres_" + case.get("Xpres", "list"))
 
@@ -269,6 +285,15 @@ def cond_case(draw):
             "Ypres": _pres_for(draw, Y), "Xpres": _pres_for(draw, Xi) if Xi else "list",
             "xpres": draw(st.sampled_from(["list", "array"] + (["scalar"] if nx == 1 else []))),
             "split": draw(st.integers(1, 3))}
+    if draw(st.integers(0, 3)) == 0:
+        case["cscale"] = [draw(st.sampled_from([0, 0, 1, -1, 9, -9, 17, -17])) for _ in range(p)]
+    if draw(st.integers(0, 3)) == 0:
+        # integer-typed covariance (entries B B^T + d with integer B, d), possibly huge
+        case["B"] = [[draw(st.integers(-3, 3)) for _ in row] for row in B]
+        case["d"] = [draw(st.integers(1, 5)) if fr(v) != 0 else 0 for v in case["d"]]
+        case["scale_exp"] = draw(st.sampled_from([0, 0, 3, 8, 16, 22]))
+        case["cscale"] = None
+        case["int_cov"] = True
     if nx >= 2:
         case["perm"] = list(draw(st.permutations(list(range(nx)))))
     if ny >= 2:
